@@ -14,7 +14,7 @@ PID = "C07"
 
 
 # ----------------------------------------------------------------------------- real code
-def impl_decision(policy, R, V, seed=None):
+def impl_decision(policy, R, V, seed=None, prior=None):
     from resonaate.tasking.decisions.decisions import (
         AllVisibleDecision,
         MunkresDecision,
@@ -29,6 +29,9 @@ def impl_decision(policy, R, V, seed=None):
         "random": RandomDecision,
     }[policy]
     obj = cls(seed=seed) if policy == "random" else cls()
+    # the engine keeps one decision object for the whole run: earlier calls must leave nothing behind
+    for R0, V0 in prior or []:
+        obj.calculate(np.array(R0, dtype=float), np.array(V0, dtype=bool))
     D = obj.calculate(np.array(R, dtype=float), np.array(V, dtype=bool))
     D = np.asarray(D)
     if D.shape != np.array(R).shape:
@@ -137,8 +140,15 @@ def cases(run: Run):
     for _ in range(run.n(300, 4000)):
         T, S = rng.randint(1, 4), rng.randint(1, 4)
         R, V = gen_matrix(rng, T, S, rng.choice(["small", "ties", "dyadic", "engine"]))
+        prior = None
+        if rng.random() < 0.4:
+            # earlier steps of the same engine: same shape (other rewards, other visibility), now and then another shape first
+            prior = [list(gen_matrix(rng, T, S, rng.choice(["small", "ties", "dyadic", "engine"]))) for _ in range(rng.randint(1, 3))]
+            if rng.random() < 0.25:
+                T0, S0 = rng.randint(1, 4), rng.randint(1, 4)
+                prior.insert(0, list(gen_matrix(rng, T0, S0, "small")))
         for pol in ("greedy", "munkres", "allvis"):
-            out.append({"op": pol, "R": R, "V": V, "src": "random-small"})
+            out.append({"op": pol, "R": R, "V": V, "src": "random-small" + ("-history" if prior else ""), **({"prior": prior} if prior else {})})
         out.append({"op": "random", "R": R, "V": V, "seed": rng.randint(0, 2**31), "src": "random-small"})
     for _ in range(run.n(40, 400)):
         T, S = rng.randint(3, 40), rng.randint(3, 40)
@@ -164,7 +174,11 @@ def cases(run: Run):
         ms = [Fraction(rng.randint(-64, 64), 16) for _ in range(4)]
         if rng.random() < 0.3:
             ms[0] = Fraction(0)
-        out.append({"op": "reward", "delta": delta, "ms": ms})
+        c = {"op": "reward", "delta": delta, "ms": ms}
+        if rng.random() < 0.6:
+            c["order4"] = rng.sample(range(4), 4)
+            c["order3"] = rng.sample(range(3), 3)
+        out.append(c)
     return out
 
 
@@ -244,7 +258,8 @@ def reward_objs():
         st, inf, sen, tg = mk(StabilityMetric), mk(InformationMetric), mk(SensorMetric), mk(TargetMetric)
         _REWARD_OBJS.update(
             cc=lambda d: CostConstrainedReward([st, inf, sen], delta=d),
-            comb=lambda d: CombinedReward([st, inf, sen, tg], delta=d),
+            comb=lambda d, order=(0, 1, 2, 3): CombinedReward([[st, inf, sen, tg][k] for k in order], delta=d),
+            cc_o=lambda d, order=(0, 1, 2): CostConstrainedReward([[st, inf, sen][k] for k in order], delta=d),
             sum=lambda: SimpleSummationReward([st, inf, sen, tg]),
         )
     return _REWARD_OBJS
@@ -253,7 +268,7 @@ def reward_objs():
 def impl_case(case):
     op = case["op"]
     if op in ("greedy", "munkres", "allvis", "random"):
-        return guarded(impl_decision, op, case["R"], case["V"], case.get("seed"))
+        return guarded(impl_decision, op, case["R"], case["V"], case.get("seed"), case.get("prior"))
     if op == "norm":
         def f():
             ro = reward_objs()["sum"]()
@@ -273,8 +288,12 @@ def impl_case(case):
             ms = [float(x) for x in case["ms"]]
             arr3 = np.array(ms[:3]).reshape(1, 1, 3)
             arr4 = np.array(ms).reshape(1, 1, 4)
-            a = float(np.asarray(ro["cc"](d).calculate(arr3)).reshape(-1)[0])
-            b = float(np.asarray(ro["comb"](d).calculate(arr4)).reshape(-1)[0])
+            # the metric list in any order (the rewards find their metrics by kind, not by position)
+            o4, o3 = case.get("order4", [0, 1, 2, 3]), case.get("order3", [0, 1, 2])
+            arr3 = np.array([ms[k] for k in o3]).reshape(1, 1, 3)
+            arr4o = np.array([ms[k] for k in o4]).reshape(1, 1, 4)
+            a = float(np.asarray(ro["cc_o"](d, tuple(o3)).calculate(arr3)).reshape(-1)[0])
+            b = float(np.asarray(ro["comb"](d, tuple(o4)).calculate(arr4o)).reshape(-1)[0])
             c = float(np.asarray(ro["sum"]().calculate(arr4)).reshape(-1)[0])
             return a, b, c
 
@@ -322,6 +341,18 @@ def oracle(run: Run, case, impl, best):
             tot = masked_total(R, V, D)
             if tot != best:
                 fails.append((f"{op}:not-optimal", f"masked total {tot} but the optimum over complete assignments is {best}"))
+    elif op == "reward":
+        if impl[0] != "ok":
+            return [("reward:raises", impl[1])]
+        # the documented combinations, by kind of metric (stability, information, sensor, target), whatever the order of the metric list
+        d = Fraction(case["delta"])
+        st, inf, sen, tg = [Fraction(x) for x in case["ms"]]
+        sign = (st > 0) - (st < 0)
+        cc = d * (sign + inf) - (1 - d) * sen
+        for got, want, nm in zip(impl[1], (cc, cc + tg, st + inf + sen + tg), ("cost-constrained", "combined", "summation")):
+            if abs(got - float(want)) > 1e-12 * max(1.0, abs(float(want))):
+                fails.append((f"reward:{nm}", f"{nm} reward {got} but the documented combination gives {float(want)} (delta {float(d)}, stability/information/sensor/target metrics "
+                                               f"{[float(x) for x in case['ms']]}, metric list order {case.get('order4') if nm != 'cost-constrained' else case.get('order3')})"))
     elif op == "norm":
         if impl[0] != "ok":
             return [("norm:raises", impl[1])]
@@ -391,7 +422,10 @@ def dec_case(c):
             return Fraction(v)
         return v
 
-    return {k: (d(v) if k in ("R", "m", "ms", "delta") else v) for k, v in c.items()}
+    out = {k: (d(v) if k in ("R", "m", "ms", "delta") else v) for k, v in c.items()}
+    if "prior" in out:
+        out["prior"] = [[d(R0), V0] for R0, V0 in out["prior"]]
+    return out
 
 
 def canon_dec(D):
@@ -471,7 +505,7 @@ def run_cases(run: Run, cs, with_model=True):
                         run.worse(f"reward.{nm}", abs(a - float(Fraction(b))))
         for key, what in oracle(run, c, i, best):
             run.fail(key, jc, what)
-        if c.get("src") in ("random-small", "exhaustive") or run.tier == "thorough":
+        if str(c.get("src")).startswith("random-small") or c.get("src") == "exhaustive" or run.tier == "thorough":
             if c.get("src") != "exhaustive" or run.rng.random() < 0.1:
                 for key, what in metamorphic(run, c, i):
                     run.fail(key, jc, what)
